@@ -259,16 +259,7 @@ def run_unit(unit, canary=None, extra_args=(), tag=None):
     os.makedirs(bdir, exist_ok=True)
     try:
         if canary:
-            with open(src, encoding="utf-8") as f:
-                txt = f.read()
-            if canary["find"] not in txt:
-                res.reason = "canary %s: text to replace not found in unit" % canary["name"]
-                return res
-            txt = txt.replace(canary["find"], canary["replace"], 1)
-            tsrc = os.path.join(bdir, "unit.canary.vrs")
-            with open(tsrc, "w", encoding="utf-8") as f:
-                f.write(txt)
-            woven = weave.assemble(tsrc)
+            woven = weave.assemble(src, canary)
         else:
             woven = weave.assemble(src)
     except weave.UnitError as e:
